@@ -43,7 +43,7 @@ INFORMATIONAL = {
 
 def _toml_root(fn):
     """the local holding the parsed configuration: assigned from <x>.read() / tomlkit.loads(..) / tomlkit.parse(..)"""
-    for n in sorted([x for x in ast.walk(fn) if isinstance(x, ast.Assign)], key=lambda x: x.lineno):
+    for n in [x for x in _in_order(fn) if isinstance(x, ast.Assign)]:
         if isinstance(n.targets[0], ast.Name) and isinstance(n.value, ast.Call) and isinstance(n.value.func, ast.Attribute) and n.value.func.attr in ("read", "loads", "parse"):
             return n.targets[0].id
     return "content"
@@ -70,6 +70,11 @@ def _in_order(fn):
     return out
 
 
+def _content_writer(pkg):
+    """BaseConfiguration.content with the _fill_* style helpers it may have been split into put back"""
+    return pkg.expanded("BaseConfiguration", "content")
+
+
 def _init_handle(pkg):
     """InitCommand.handle with the parsing helpers it may have been split into put back; self.option / self.validate are the
     primitives the rules below speak about and stay calls"""
@@ -88,31 +93,70 @@ def _alias_closure(fn, name):
     return out
 
 
+def _origin_of(e, org):
+    """the one option an expression derives from: through locals of known origin and direct self.option("o") reads; else None"""
+    used = {org[x.id] for x in ast.walk(e) if isinstance(x, ast.Name) and x.id in org}
+    used |= {x.args[0].value for x in ast.walk(e) if isinstance(x, ast.Call) and ast.unparse(x.func) == "self.option" and x.args and isinstance(x.args[0], ast.Constant)}
+    return next(iter(used)) if len(used) == 1 else None
+
+
+def _option_loops(h, org, opt):
+    """the outermost `for` loops over the occurrences / pieces of option `opt` (the iterable derives from that option only)"""
+    at = _origins_at(h)
+    out = []
+
+    def rec(stmts):
+        for st in stmts:
+            if isinstance(st, (ast.FunctionDef, ast.AsyncFunctionDef, ast.ClassDef)):
+                continue
+            if isinstance(st, ast.For) and at.get(id(st)) == opt:
+                out.append(st)
+                continue
+            for fld in ("body", "orelse", "finalbody"):
+                b = getattr(st, fld, None)
+                if isinstance(b, list) and b and isinstance(b[0], ast.stmt):
+                    rec(b)
+            for hd in getattr(st, "handlers", []) or []:
+                rec(hd.body)
+    rec(h.body)
+    return out
+
+
+def _origins_at(h):
+    """{id(statement): option} for the Assign / For statements of InitCommand.handle: the option the assigned value / the iterable
+    derives from at that point of the function (a local re-used for another option later does not change it)"""
+    if not hasattr(h, "_sa_origins"):
+        _option_origins(h)
+    return h._sa_origins[1]
+
+
 def _option_origins(h):
     """{local: option name} for InitCommand.handle: x = self.option("o"), then every local assigned from an expression over locals
     of one single origin, every loop variable of a loop over such an expression, and every container filled (subscript store /
-    append / extend / setdefault / update) inside such a loop."""
-    org = {}
-
-    def origin(e):
-        used = {org[x.id] for x in ast.walk(e) if isinstance(x, ast.Name) and x.id in org}
-        return next(iter(used)) if len(used) == 1 else None
+    append / extend / setdefault / update) inside such a loop.  Statements are taken in execution order; a local bound again from
+    another option changes its origin from there on."""
+    if hasattr(h, "_sa_origins"):
+        return h._sa_origins[0]
+    org, at = {}, {}
     for n in _in_order(h):
         if isinstance(n, ast.Assign) and len(n.targets) == 1 and isinstance(n.targets[0], (ast.Name, ast.Tuple)):
-            v = n.value
             names = [n.targets[0]] if isinstance(n.targets[0], ast.Name) else [e for e in n.targets[0].elts if isinstance(e, ast.Name)]
-            if isinstance(v, ast.Call) and ast.unparse(v.func) == "self.option" and v.args and isinstance(v.args[0], ast.Constant):
+            o = _origin_of(n.value, org)
+            at[id(n)] = o
+            direct = isinstance(n.value, ast.Call) and ast.unparse(n.value.func) == "self.option"
+            if o is not None:
                 for t in names:
-                    org[t.id] = v.args[0].value
-            else:
-                o = origin(v)
-                for t in names:
-                    if t.id not in org and o is not None:
+                    # a local that already stands for an option keeps it when it is refined (validated, split, defaulted from other
+                    # settings on one branch); reading another option into it re-binds it
+                    if direct or t.id not in org:
                         org[t.id] = o
-        elif isinstance(n, ast.For) and origin(n.iter) is not None:
-            o = origin(n.iter)
+        elif isinstance(n, ast.For):
+            o = _origin_of(n.iter, org)
+            at[id(n)] = o
+            if o is None:
+                continue
             for x in ast.walk(n.target):
-                if isinstance(x, ast.Name) and x.id not in org:
+                if isinstance(x, ast.Name):
                     org[x.id] = o
             for x in ast.walk(n):
                 b = None
@@ -124,19 +168,87 @@ def _option_origins(h):
                     b = b.value
                 if isinstance(b, ast.Name) and b.id not in org and not any(isinstance(a, ast.Assign) and isinstance(a.targets[0], ast.Name) and a.targets[0].id == b.id for a in ast.walk(n)):
                     org[b.id] = o
+    h._sa_origins = (org, at)
     return org
 
 
-def _writer_locals(eh):
-    """{option: local} in ExampleCommand.handle: the local interpolated right after `--<option>='` in the composed command line"""
+def _example_flow(pkg):
+    """value reconstruction (sa.valueflow) of ExampleCommand.handle: the command line it composes, whatever mix of f-strings,
+    str.format, concatenation, format(), local helper functions and part lists it is spelled with"""
+    from ..valueflow import Flow
+    cache = pkg.__dict__.setdefault("_example_flow", {})
+    if "fl" not in cache:
+        cache["fl"] = Flow(pkg.method("ExampleCommand", "handle"), EXAMPLE)
+    return cache["fl"]
+
+
+def _flow_values(fl):
+    """every reconstructed value of the function: assigned values and the values of stores / appends / calls"""
+    from ..valueflow import simp
+    for lst in fl.assigns.values():
+        for a in lst:
+            yield simp(a[0])
+    for f in fl.facts:
+        if f.value is not None:
+            yield simp(f.value)
+
+
+def _text_consts(fl, v, seen=None):
+    """the literal text pieces of a string-valued IR: constants of f-strings / concatenations, join separators, the pieces of
+    comprehension elements, both arms of conditionals; a list filled by appends or a string grown by += contributes every piece
+    appended to it.  Data (attributes, parameters, call results) contributes nothing."""
+    from ..valueflow import simp
+    seen = seen if seen is not None else set()
+    out = set()
+    if not isinstance(v, tuple) or not v:
+        return out
+    k = v[0]
+    if k == "const":
+        if isinstance(v[1], str):
+            out.add(v[1])
+    elif k == "fstr":
+        for p_ in v[1]:
+            out |= _text_consts(fl, p_[1] if p_[0] == "fmt" else p_, seen)
+    elif k == "join":
+        out |= _text_consts(fl, v[1], seen) | _text_consts(fl, v[2], seen)
+    elif k == "comp":
+        out |= _text_consts(fl, v[2], seen)
+    elif k in ("list", "tuple"):
+        for e in v[1]:
+            out |= _text_consts(fl, e, seen)
+    elif k in ("ifexp", "phi"):
+        out |= _text_consts(fl, v[2], seen) | _text_consts(fl, v[3], seen)
+    elif k == "binop" and v[1] == "Add":
+        out |= _text_consts(fl, v[2], seen) | _text_consts(fl, v[3], seen)
+    elif k in ("appended", "copy", "after", "star"):
+        for x in v[1:]:
+            if isinstance(x, tuple):
+                out |= _text_consts(fl, x, seen)
+    elif k in ("acc", "carried"):
+        name = v[1]
+        if name not in seen:
+            seen.add(name)
+            for f in fl.facts:
+                if f.target == name and f.kind in ("init", "append", "mutate", "augassign", "store", "augstore") and f.value is not None:
+                    out |= _text_consts(fl, simp(f.value), seen)
+            for a in fl.assigns.get(name, []):
+                out |= _text_consts(fl, simp(a[0]), seen)
+    return out
+
+
+def _writer_values(fl):
+    """{option: IR of the value} in ExampleCommand.handle: what is interpolated right after `--<option>=` / `--<option>='` in the
+    composed command line"""
+    from ..valueflow import walk
     out = {}
-    for n in ast.walk(eh):
-        if isinstance(n, ast.JoinedStr):
-            for a, b in zip(n.values, n.values[1:]):
-                if isinstance(a, ast.Constant) and isinstance(b, ast.FormattedValue) and isinstance(b.value, ast.Name):
-                    m = re.search(r"--([a-z][a-z\-]+)='?$", str(a.value))
-                    if m:
-                        out[m.group(1)] = b.value.id
+    for v in _flow_values(fl):
+        for x in walk(v):
+            if isinstance(x, tuple) and len(x) == 2 and x[0] == "fstr":
+                for a, b in zip(x[1], x[1][1:]):
+                    if a[0] == "const" and isinstance(a[1], str) and b[0] == "fmt":
+                        m = re.search(r"--([a-z][a-z\-]+)='?$", a[1])
+                        if m:
+                            out.setdefault(m.group(1), b[1])
     return out
 
 
@@ -163,8 +275,7 @@ def _alias_paths(fn, root_names, derive=False):
     reads, writes = {}, {}
     for node in ast.walk(fn):
         pass
-    stmts = [n for n in ast.walk(fn) if isinstance(n, (ast.Assign,))]
-    stmts.sort(key=lambda n: n.lineno)
+    stmts = [n for n in _in_order(fn) if isinstance(n, (ast.Assign,))]       # execution order (expanded helpers keep their own line numbers)
 
     def path_of(e):
         if isinstance(e, ast.Name) and e.id in var:
@@ -480,7 +591,7 @@ USER_PATHS = ("chemistry.", "ODEsolver.", "general.name", "general.description",
 
 def _r9(ctx, pkg):
     mod = pkg.modules[CONF]
-    cfn = pkg.cls("BaseConfiguration").methods["content"]
+    cfn = _content_writer(pkg)
     n = 0
     var = {_toml_root(cfn): ""}
 
@@ -492,7 +603,7 @@ def _r9(ctx, pkg):
             if b is not None:
                 return f"{b}.{e.slice.value}" if b else e.slice.value
         return None
-    for st in sorted([x for x in ast.walk(cfn) if isinstance(x, ast.Assign)], key=lambda x: x.lineno):
+    for st in [x for x in _in_order(cfn) if isinstance(x, ast.Assign)]:
         t = st.targets[0]
         if isinstance(t, ast.Name):
             p = path_of(st.value)
@@ -524,7 +635,7 @@ def _r1(ctx, pkg):
         ctx.missing("R1", "NAUNET_CONFIG_DEFAULT", (CONF, 0), "schema string not found")
         return
     schema = _toml_paths(default)
-    cfn = pkg.cls("BaseConfiguration").methods["content"]
+    cfn = _content_writer(pkg)
     _, writes, _ = _alias_paths(cfn, {_toml_root(cfn): ""})
     rfn = pkg.method("RenderCommand", "handle")
     efn = pkg.method("ExtendCommand", "handle")
@@ -598,11 +709,14 @@ def _r2(ctx, pkg):
                 ctx.check(got == exp, "R2", f"InitCommand:{k.arg}=", (INIT, c.lineno), f"`{k.arg}` receives the value parsed from --{exp}",
                           expected=f"a local derived from self.option({exp!r})", found=f"{ast.unparse(k.value)} (from --{got})")
     # species_kwargs keys
-    cfn = pkg.cls("BaseConfiguration").methods["content"]
+    cfn = _content_writer(pkg)
     looked = []
+    kwnames = {"self._species_kwargs"} | {t.id for n in ast.walk(cfn) if isinstance(n, ast.Assign) and ast.unparse(n.value) == "self._species_kwargs" for t in n.targets if isinstance(t, ast.Name)}
     for n in ast.walk(cfn):
-        if isinstance(n, ast.Call) and isinstance(n.func, ast.Attribute) and n.func.attr == "get" and ast.unparse(n.func.value) == "self._species_kwargs" and n.args:
+        if isinstance(n, ast.Call) and isinstance(n.func, ast.Attribute) and n.func.attr == "get" and ast.unparse(n.func.value) in kwnames and n.args:
             looked.append((n.args[0].value, n.lineno))
+        elif isinstance(n, ast.Subscript) and ast.unparse(n.value) in kwnames and isinstance(n.slice, ast.Constant):
+            looked.append((n.slice.value, n.lineno))
     stored = _kwargs_dict(h, "BaseConfiguration", "species_kwargs")
     sp_params = {a.arg for a in pkg.method("Species", "__init__").args.args} - {"self", "name"}
     rh = pkg.method("RenderCommand", "handle")
@@ -635,42 +749,26 @@ def _r3(ctx, pkg):
         if isinstance(c, ast.Call) and ast.unparse(c.func) == "option" and c.args and isinstance(c.args[0], ast.Constant):
             decl.add(c.args[0].value)
     used = set()
-    for n in ast.walk(h):
-        if isinstance(n, ast.Constant) and isinstance(n.value, str):
-            for m in re.finditer(r"--([a-z][a-z\-]+)", n.value):
-                used.add(m.group(1))
+    from ..valueflow import walk as _walk
+    for v in _flow_values(_example_flow(pkg)):
+        for x in _walk(v):
+            if isinstance(x, tuple) and len(x) == 2 and x[0] == "const" and isinstance(x[1], str):
+                for m in re.finditer(r"--([a-z][a-z\-]+)", x[1]):
+                    used.add(m.group(1))
     used -= {"select", "dry", "path"}
     ctx.floor("R3", "options composed by the example command", len(used), 20)
     for o in sorted(used):
         ctx.check(o in decl, "R3", f"--{o}", (EXAMPLE, h.lineno), f"--{o} is an option of `naunet init`")
 
 
-def _seps_writer(h):
-    """{local name: set of separator chars} from `x = "<sep>".join(f"...{a}<sep2>{b}" ...)` in ExampleCommand.handle"""
-    out = {}
-    for n in ast.walk(h):
-        if isinstance(n, (ast.Assign, ast.AugAssign)) and isinstance(getattr(n, "targets", [getattr(n, "target", None)])[0] if isinstance(n, ast.Assign) else n.target, ast.Name):
-            name = (n.targets[0] if isinstance(n, ast.Assign) else n.target).id
-            seps = out.setdefault(name, set())
-            v = n.value
-            for c in ast.walk(v):
-                if isinstance(c, ast.Call) and isinstance(c.func, ast.Attribute) and c.func.attr == "join" and isinstance(c.func.value, ast.Constant):
-                    seps |= set(c.func.value.value.strip())
-                if isinstance(c, ast.JoinedStr):
-                    for part in c.values:
-                        if isinstance(part, ast.Constant):
-                            seps |= {ch for ch in part.value if ch in ":;,="}
-    return out
-
-
 def _seps_reader(h, opt, org):
     """separators at which the locals derived from option `opt` are split in InitCommand.handle"""
     seps = set()
-    mine = {l for l, o in org.items() if o == opt}
-    for n in sorted([n for n in ast.walk(h) if isinstance(n, (ast.Assign, ast.For))], key=lambda n: n.lineno):
-        if isinstance(n, ast.Assign) and isinstance(n.targets[0], ast.Name) and n.targets[0].id in mine:
+    at = _origins_at(h)
+    for n in _in_order(h):
+        if isinstance(n, ast.Assign) and at.get(id(n)) == opt:
             scope = [n.value]
-        elif isinstance(n, ast.For) and isinstance(n.iter, ast.Name) and n.iter.id in mine:
+        elif isinstance(n, ast.For) and at.get(id(n)) == opt:
             scope = [n]
         else:
             continue
@@ -687,21 +785,22 @@ OPTION_SEPS = {"element-replacement": {",", ":"}, "shielding": {",", ":"}, "bind
 def _r4_r6_r7(ctx, pkg):
     eh = pkg.method("ExampleCommand", "handle")
     ih = _init_handle(pkg)
-    w = _seps_writer(eh)
-    wl_of = _writer_locals(eh)
+    efl = _example_flow(pkg)
+    wv = _writer_values(efl)
     org = _option_origins(ih)
     for opt, exp in OPTION_SEPS.items():
-        ws = {c for c in w.get(wl_of.get(opt), set()) if c in ":;,="}
+        ws = {c for t in (_text_consts(efl, wv[opt]) if opt in wv else ()) for c in t if c in ":;,="}
         rs = _seps_reader(ih, opt, org)
         ctx.check(ws == rs == exp, "R4", f"--{opt} separators", (INIT, ih.lineno),
                   f"the example command joins with {sorted(exp)} and the init command splits at the same characters" if ws == rs == exp else
                   f"separator mismatch for --{opt}: written with {sorted(ws)}, split at {sorted(rs)}", expected=str(sorted(exp)), found=f"writer {sorted(ws)}, reader {sorted(rs)}")
     # R6 lossy split of free text (rate / ODE modifier expressions)
     n6 = 0
-    for local, opt6 in [(l, o) for l, o in sorted(org.items()) if o in ("rate-modifier", "ode-modifier")]:
+    at = _origins_at(ih)
+    for opt6 in ("ode-modifier", "rate-modifier"):
         # statements that split pieces of this option and index the result by constants
-        for n in ast.walk(ih):
-            if isinstance(n, ast.Assign) and isinstance(n.targets[0], ast.Name) and n.targets[0].id == local:
+        for n in _in_order(ih):
+            if isinstance(n, ast.Assign) and isinstance(n.targets[0], ast.Name) and at.get(id(n)) == opt6:
                 for c in ast.walk(n.value):
                     if isinstance(c, ast.Call) and isinstance(c.func, ast.Attribute) and c.func.attr == "split" and c.args and isinstance(c.args[0], ast.Constant) and c.args[0].value == ":":
                         n6 += 1
@@ -711,12 +810,13 @@ def _r4_r6_r7(ctx, pkg):
                                   "the option value is cut at every ':' and the pieces are read by index [0], [1]: an expression containing ':' (a C conditional) is silently truncated",
                                   expected="split(':', 1)", found=ast.unparse(c))
     # ode-modifier: tuple unpacking raises on a surplus piece (not silent)
-    unp = [n for n in ast.walk(ih) if isinstance(n, ast.Assign) and isinstance(n.targets[0], ast.Tuple) and re.fullmatch(r"\w+\.split\(':'\)", ast.unparse(n.value))]
+    unp = [n for lp in _option_loops(ih, org, "ode-modifier") for n in ast.walk(lp)
+           if isinstance(n, ast.Assign) and isinstance(n.targets[0], ast.Tuple) and re.fullmatch(r"\w+\.split\(':'\)", ast.unparse(n.value))]
     ctx.check(len(unp) == 1 and len(unp[0].targets[0].elts) == 2, "R6", "--ode-modifier: key/value unpacking", (INIT, unp[0].lineno if unp else ih.lineno),
               "`key, value = om.split(':')` raises on a surplus ':' instead of dropping text")
     ctx.floor("R6", "free-text splits", n6, 1, (INIT, ih.lineno))
     # R7 fresh lists per ODE-modifier entry
-    loops = [n for n in ast.walk(ih) if isinstance(n, ast.For) and isinstance(n.iter, ast.Name) and org.get(n.iter.id) == "ode-modifier"]
+    loops = _option_loops(ih, org, "ode-modifier")
     D = _alias_closure(ih, next((k.value.id for c in ast.walk(ih) if isinstance(c, ast.Call) for k in c.keywords if k.arg == "ode_modifier" and isinstance(k.value, ast.Name)), "ode_modifier"))
     ok = False
     found = ""
@@ -843,8 +943,21 @@ MUTANTS = [
     {"name": "reader-unknown-key", "file": RENDER, "old": 'grain_model = chem_grain["model"]', "new": 'grain_model = chem_grain["grain_model"]', "rules": ["R1"]},
     {"name": "writer-drops-shielding", "file": CONF, "old": '        chemistry["shielding"] = self._shielding\n', "new": "", "rules": ["R1"]},
     {"name": "binding-separator", "file": EXAMPLE, "old": 'bindingstr = ",".join(f"{s}={sv}" for s, sv in binding.items())', "new": 'bindingstr = ",".join(f"{s}:{sv}" for s, sv in binding.items())', "rules": ["R4"]},
+    # hardening round 4: the accepted helper / loop / format spellings carrying a defect
+    {"name": "writer-helper-forgets-method", "edits": [
+        {"file": CONF, "old": "    @property\n    def content(self) -> str:\n", "new": "    def _fill_solver(self, table) -> None:\n        table[\"solver\"] = self._solver\n        table[\"device\"] = self._device\n\n    @property\n    def content(self) -> str:\n"},
+        {"file": CONF, "old": "        odesolver = content[\"ODEsolver\"]\n        odesolver[\"solver\"] = self._solver\n        odesolver[\"device\"] = self._device\n        odesolver[\"method\"] = self._method\n", "new": "        self._fill_solver(content[\"ODEsolver\"])\n"}], "rules": ["R1"]},
+    {"name": "rate-modifier-loop-lossy-split", "file": INIT, "old": "        rate_modifier = self.option(\"rate-modifier\")\n        rate_modifier = [rm.strip() for l in rate_modifier for rm in l.split(\",\")]\n        rate_modifier = [rm.split(\":\", 1) for rm in rate_modifier]\n        rate_modifier = {rm[0].strip(): rm[1].strip() for rm in rate_modifier}\n", "new": "        rate_modifier = {}\n        for text in self.option(\"rate-modifier\"):\n            for piece in text.split(\",\"):\n                pair = piece.strip().split(\":\")\n                rate_modifier[pair[0].strip()] = pair[1].strip()\n", "rules": ["R6"]},
+    {"name": "shielding-format-separator", "file": EXAMPLE, "old": 'shieldingstr = ",".join(f"{key}: {val}" for key, val in shielding.items())', "new": 'shieldingstr = ",".join("{}={}".format(key, val) for key, val in shielding.items())', "rules": ["R4"]},
     {"name": "network-not-passed-cooling", "file": RENDER, "old": "            cooling=cooling,\n", "new": "            cooling=heating,\n", "rules": ["R8"]},
 ]
 BENIGN = [
+    # hardening round 4
+    {"name": "writer-fills-through-helper", "edits": [
+        {"file": CONF, "old": "    @property\n    def content(self) -> str:\n", "new": "    def _fill_solver(self, table) -> None:\n        table[\"solver\"] = self._solver\n        table[\"device\"] = self._device\n        table[\"method\"] = self._method\n\n    @property\n    def content(self) -> str:\n"},
+        {"file": CONF, "old": "        odesolver = content[\"ODEsolver\"]\n        odesolver[\"solver\"] = self._solver\n        odesolver[\"device\"] = self._device\n        odesolver[\"method\"] = self._method\n", "new": "        self._fill_solver(content[\"ODEsolver\"])\n"}]},
+    {"name": "rate-modifier-explicit-loop", "file": INIT, "old": "        rate_modifier = self.option(\"rate-modifier\")\n        rate_modifier = [rm.strip() for l in rate_modifier for rm in l.split(\",\")]\n        rate_modifier = [rm.split(\":\", 1) for rm in rate_modifier]\n        rate_modifier = {rm[0].strip(): rm[1].strip() for rm in rate_modifier}\n", "new": "        rate_modifier = {}\n        for text in self.option(\"rate-modifier\"):\n            for piece in text.split(\",\"):\n                pair = piece.strip().split(\":\", 1)\n                rate_modifier[pair[0].strip()] = pair[1].strip()\n"},
+    {"name": "shielding-str-format", "file": EXAMPLE, "old": 'shieldingstr = ",".join(f"{key}: {val}" for key, val in shielding.items())', "new": 'shieldingstr = ",".join("{}: {}".format(key, val) for key, val in shielding.items())'},
+    {"name": "option-by-concatenation", "file": EXAMPLE, "old": "f\"--shielding='{shieldingstr}'\",", "new": "\"--shielding=\" + \"'\" + format(shieldingstr) + \"'\","},
     {"name": "kwargs-reordered", "file": INIT, "old": "            solver=solver,\n            device=device,\n            method=method,\n        )", "new": "            method=method,\n            device=device,\n            solver=solver,\n        )"},
 ]
